@@ -36,12 +36,22 @@ def _stim(**kw):
     return d
 
 
+FILLER = b"$%d\r\n%s\r\n" % (700000, bytes((i * 11 + 5) % 251 + 1 for i in range(700000)))
+FILLER_HEX = FILLER.hex()
+
+
 def to_scenario(sched, sid):
     steps, cur = [], []
+    resumed = []
     for e in sched:
         op = e["op"]
         if op == "iter":
             steps.append({"stim": cur, "noIter": False, "settle": False})
+            # a client that reads again needs several rounds (read, EPOLLOUT, read ...) to get what was parked
+            for c in resumed:
+                for _ in range(4):
+                    steps.append({"stim": [_stim(op="readsome", c=c, count=400000)], "noIter": False, "settle": True})
+            resumed = []
             cur = []
         elif op == "send":
             req = {"k": e["req"]["k"], "slots": list(e["req"]["slots"]), "args": []}
@@ -55,11 +65,27 @@ def to_scenario(sched, sid):
             cur.append(_stim(op="bclose", n=e["n"]))
         elif op == "cclose":
             cur.append(_stim(op="cclose", c=e["c"]))
+        elif op == "pause":
+            # the client stops reading; a filler request on a node the model does not use is answered with a reply larger
+            # than the kernel buffers, so that from now on what the proxy writes to this client parks in its outbound buffer
+            cur.append(_stim(op="pause", c=e["c"]))
+            cur.append(_stim(op="send", c=e["c"], reqs=[{"k": "cmd", "slots": ["D"], "args": ["GET", "@0"]}]))
+            steps.append({"stim": cur, "noIter": False, "settle": True})
+            steps.append({"stim": [_stim(op="answer", n="n4", kind="raw", hex=FILLER_HEX)], "noIter": False, "settle": True})
+            steps.append({"stim": [_stim(op="sleep", count=10)], "noIter": False, "settle": True})
+            cur = []
+        elif op == "resume":
+            cur.append(_stim(op="resume", c=e["c"]))
+            cur.append(_stim(op="readsome", c=e["c"], count=400000))
+            resumed.append(e["c"])
         elif op == "expire":
             cur.append(_stim(op="expire", count=1))
             if e.get("kind") == "wake":
                 cur.append(_stim(op="wake"))
     steps.append({"stim": cur, "noIter": False, "settle": True})
+    for c in resumed:
+        for _ in range(4):
+            steps.append({"stim": [_stim(op="readsome", c=c, count=400000)], "noIter": False, "settle": True})
     return {"id": sid, "steps": steps}
 
 
@@ -69,6 +95,9 @@ def cfg_for(pid):
         cfg["unowned"] = True
     if pid == "C16":
         cfg["timeoutMs"] = 3600000
+    if pid.endswith("p"):
+        cfg["sockBuf"] = 65536      # client-side back-pressure: the kernel buffers must be small enough to fill
+        cfg["masters"] = 4          # a fourth master (slot name D) that only the filler requests use
     return cfg
 
 
